@@ -44,16 +44,30 @@ func sqlWindowClause(c Case) string {
 	return ""
 }
 
-// execWinAPISessionOnce (cfg `winapi 1`, kind sqlsession): the same rows, sentinel and observables, but through the window
-// package's own API — NewSessionWindow, SetCallback, Start, Add — with the window's real goroutine; with cfg `reuse 1` the
-// window object is first started, Reset() and started again (a window that has been reset is as new).
-func execWinAPISessionOnce(c Case) ([][]string, bool) {
+// execWinAPIOnce (cfg `winapi 1`): the same rows, sentinel and observables, but through the window package's own API —
+// NewTumblingWindow / NewSlidingWindow / NewSessionWindow, SetCallback, Start, Add — with the window's real goroutine; with
+// cfg `reuse 1` the window object is first started, Reset() and started again (a window that has been reset is as new).
+// A delivered batch is split by key (sessions hold one key; time windows hold all keys of the interval).
+func execWinAPIOnce(c Case) ([][]string, bool) {
 	ms := time.Millisecond
-	wc := types.WindowConfig{Type: window.TypeSession, Params: []any{time.Duration(cfgInt(c, "timeout", 1000)) * ms},
-		TsProp: "ts", TimeUnit: ms, TimeCharacteristic: types.EventTime,
-		MaxOutOfOrderness: time.Duration(cfgInt(c, "ooo", 0)) * ms, AllowedLateness: time.Duration(cfgInt(c, "late", 0)) * ms,
-		GroupByKeys: []string{"k"}}
-	w, err := window.NewSessionWindow(wc)
+	wc := types.WindowConfig{TsProp: "ts", TimeUnit: ms, TimeCharacteristic: types.EventTime,
+		MaxOutOfOrderness: time.Duration(cfgInt(c, "ooo", 0)) * ms, AllowedLateness: time.Duration(cfgInt(c, "late", 0)) * ms}
+	var w window.Window
+	var err error
+	sentinelWant := 1
+	switch cfgStr(c, "kind", "") {
+	case "sqlsession":
+		wc.Type, wc.Params, wc.GroupByKeys = window.TypeSession, []any{time.Duration(cfgInt(c, "timeout", 1000)) * ms}, []string{"k"}
+		w, err = window.NewSessionWindow(wc)
+	case "sqltumbling":
+		wc.Type, wc.Params = window.TypeTumbling, []any{time.Duration(cfgInt(c, "size", 1000)) * ms}
+		w, err = window.NewTumblingWindow(wc)
+	default:
+		size, slide := cfgInt(c, "size", 1000), cfgInt(c, "slide", 500)
+		wc.Type, wc.Params = window.TypeSliding, []any{time.Duration(size) * ms, time.Duration(slide) * ms}
+		sentinelWant = int((size + slide - 1) / slide)
+		w, err = window.NewSlidingWindow(wc)
+	}
 	if err != nil {
 		return [][]string{{"error", hx(err.Error())}}, true
 	}
@@ -62,6 +76,7 @@ func execWinAPISessionOnce(c Case) ([][]string, bool) {
 	var lines [][]string
 	batchNo := 0
 	sentinel := ""
+	sentinelSeen := 0
 	seen := make(chan struct{}, 1)
 	w.SetCallback(func(rows []types.Row) {
 		if len(rows) == 0 || rows[0].Slot == nil {
@@ -70,30 +85,39 @@ func execWinAPISessionOnce(c Case) ([][]string, bool) {
 		mu.Lock()
 		defer mu.Unlock()
 		batchNo++
-		k := ""
-		if m, ok := rows[0].Data.(map[string]interface{}); ok {
-			k = fmt.Sprint(m["k"])
-		}
-		var sum int64
-		var ids []string
+		var keys []string
+		byKey := map[string][]int64{}
 		for _, r := range rows {
 			if m, ok := r.Data.(map[string]interface{}); ok {
+				k := fmt.Sprint(m["k"])
+				if _, ok := byKey[k]; !ok {
+					keys = append(keys, k)
+				}
 				id, _ := toI64(m["id"])
-				sum += id
-				ids = append(ids, itoa(id))
+				byKey[k] = append(byKey[k], id)
 			}
 		}
-		line := []string{"res", itoa(rows[0].Slot.Start.UnixNano()), itoa(rows[0].Slot.End.UnixNano()), hx(k), strconv.Itoa(len(ids)), itoa(sum), "t", "b" + strconv.Itoa(batchNo)}
-		for _, id := range ids {
-			line = append(line, id)
-			if id == sentinel {
-				select {
-				case seen <- struct{}{}:
-				default:
+		sort.Strings(keys)
+		for _, k := range keys {
+			var sum int64
+			for _, id := range byKey[k] {
+				sum += id
+			}
+			line := []string{"res", itoa(rows[0].Slot.Start.UnixNano()), itoa(rows[0].Slot.End.UnixNano()), hx(k), strconv.Itoa(len(byKey[k])), itoa(sum), "t", "b" + strconv.Itoa(batchNo)}
+			for _, id := range byKey[k] {
+				line = append(line, itoa(id))
+				if itoa(id) == sentinel {
+					sentinelSeen++
+					if sentinelSeen == sentinelWant {
+						select {
+						case seen <- struct{}{}:
+						default:
+						}
+					}
 				}
 			}
+			lines = append(lines, line)
 		}
-		lines = append(lines, line)
 	})
 	go func() { // nobody reads the output channel in this set-up; keep it from filling
 		for range w.OutputChan() {
@@ -143,8 +167,8 @@ func execWinAPISessionOnce(c Case) ([][]string, bool) {
 }
 
 func execSQLWindowOnce(c Case) ([][]string, bool) {
-	if cfgInt(c, "winapi", 0) == 1 && cfgStr(c, "kind", "") == "sqlsession" {
-		return execWinAPISessionOnce(c)
+	if cfgInt(c, "winapi", 0) == 1 {
+		return execWinAPIOnce(c)
 	}
 	sql := "SELECT k, count(*) AS c, sum(id) AS s, collect(id) AS ids, window_start() AS ws, window_end() AS we FROM stream GROUP BY k, " +
 		sqlWindowClause(c) + fmt.Sprintf(" WITH (TIMESTAMP='ts', TIMEUNIT='ms', MAXOUTOFORDERNESS='%s'", sqlDur(c, cfgInt(c, "ooo", 0)))
@@ -359,3 +383,22 @@ func genSQLWindow(rng *rand.Rand, c *Case, unit, ooo int64) {
 }
 
 func isSQLWindowCase(c Case) bool { return strings.HasPrefix(cfgStr(c, "kind", ""), "sql") }
+
+// maybeWinAPI: a third of the free-running cases go through the window package's own API; half of those on a window
+// object that was started, Reset() and started again
+func maybeWinAPI(rng *rand.Rand, c *Case) {
+	for _, op := range c.Ops {
+		if op[0] == "await" || op[0] == "late" {
+			return
+		}
+	}
+	if rng.Intn(3) != 0 {
+		return
+	}
+	c.Cfg = append(c.Cfg, []string{"winapi", "1"})
+	c.Stat = append(c.Stat, "window-api")
+	if rng.Intn(2) == 0 {
+		c.Cfg = append(c.Cfg, []string{"reuse", "1"})
+		c.Stat = append(c.Stat, "window-reset-then-started-again")
+	}
+}
